@@ -574,6 +574,8 @@ async fn v3_protocol(app: Rc<App>, msg: v3::ProtocolMessage) -> Result<v3::Proto
                 }
                 s.ack()
             }
+            // ProtocolMessage::ack() answers "not supported" (disconnect) for these two
+            v3::ProtocolMessage::Unsubscribe(u) => u.ack(),
             other => other.ack(),
         }),
         ProtoAnswer::Disconnect | ProtoAnswer::DisconnectWith(_) => Ok(msg.disconnect()),
